@@ -146,6 +146,17 @@ func Bases() map[string][]Op {
 		{K: VDel, I: "i", ID: "a"},
 		{K: VAdd, I: "i", ID: "a", V: []float32{4, 5, 6}},
 	}
+	// every vector deleted, then vectors of another length (and one without a length): whatever
+	// the index answers, an accepted vector reads back as given
+	b["redim"] = []Op{mk("euclidean", "float32"),
+		{K: VAdd, I: "i", ID: "a", V: []float32{1, 2}},
+		{K: VDel, I: "i", ID: "a"},
+		{K: VAdd, I: "i", ID: "b", V: []float32{1, 2, 3}},
+		{K: VAdd, I: "i", ID: "c", V: []float32{7}},
+		{K: VAdd, I: "i", ID: "d", V: nil, M: map[string]any{"s": "entity"}},
+		{K: VAddBatch, I: "i", Items: []Item{{ID: "e", V: []float32{4, 5, 6}}, {ID: "f", V: []float32{6, 5, 4}}}},
+		{K: VAdd, I: "i", ID: "g", V: []float32{8, 9}},
+	}
 	b["dim1"] = []Op{mk("euclidean", "float32"),
 		{K: VAdd, I: "i", ID: "a", V: []float32{1}},
 		{K: VAddBatch, I: "i", Items: []Item{{ID: "b", V: []float32{2}}, {ID: "c", V: []float32{-2}}}},
